@@ -321,6 +321,17 @@ class Engine:
             return ([mk(v=vec(dec=k))], "DEC", {"k": k})
         if cls == model.ATOMIC_LOAD:
             return ([RET0], "LOAD", {})
+        if cls == model.ATOMIC_CAS:
+            # `compare_exchange(cur, new, ..)` with constant operands: the count moves by new - cur exactly when the result is Ok
+            cur = new = None
+            if term is not None and len(term["args"]) > 2:
+                c1, c2 = operand_const(term["args"][1]), operand_const(term["args"][2])
+                cur = c1.get("int") if c1 else None
+                new = c2.get("int") if c2 else None
+            if cur is None or new is None or new <= cur:
+                nn = frozenset({"ATOMIC-OTHER:" + path + " (operands not constants with new > current)"})
+                return ([mk(notes=nn)], "ATOMIC-OTHER", path)
+            return ([mk(tag="Ok", v=vec(inc=new - cur)), mk(tag="Err")], "CAS", {"k": new - cur, "current": cur, "new": new})
         if cls == model.ATOMIC_OTHER:
             nn = frozenset({"ATOMIC-OTHER:" + path})
             return ([mk(notes=nn)], "ATOMIC-OTHER", path)
@@ -954,6 +965,16 @@ class Engine:
             return
         if isinstance(detail, str):
             detail = {"callee": detail}
+        # a tagged Result/Option asked for its variant: the answer is known on this path
+        if path in VARIANT_QUERIES and t["args"]:
+            al = operand_local(t["args"][0])
+            tg = st["tags"].get(al) if al is not None else None
+            if tg is None and al is not None:
+                # asked through a reference: `(&r).is_err()`
+                src = self._referent_local(al)
+                tg = st["tags"].get(src) if src is not None else None
+            if tg in VARIANT_QUERIES[path]:
+                effs = [mk(tag="True" if VARIANT_QUERIES[path][tg] else "False")]
         # variant tag flow for Try::branch
         if model.classify(path)[0] == model.TRY_BRANCH and t["args"]:
             al = operand_local(t["args"][0])
@@ -963,6 +984,29 @@ class Engine:
             elif tg in ("Err", "None"):
                 effs = [mk(tag="Break")]
         self._apply(effs, kind, detail, t, bb, st, fork, emit, nexts, dl)
+
+    def _referent_local(self, l):
+        """If local l of the body being walked is only ever `&x` / `&mut x` of a whole local x: x."""
+        body = getattr(self, "_cur_body", None)
+        if body is None:
+            return None
+        cache = self.__dict__.setdefault("_refdef_cache", {})
+        m = cache.get(body["key"])
+        if m is None:
+            m = {}
+            for bl in body["blocks"]:
+                for s in bl["stmts"]:
+                    if s["k"] == "assign" and not s["lhs"]["p"]:
+                        ll = s["lhs"]["l"]
+                        if s["rv"]["k"] == "ref" and not s["rv"]["place"]["p"]:
+                            m[ll] = s["rv"]["place"]["l"] if ll not in m else None
+                        else:
+                            m[ll] = None
+                t = bl["term"]
+                if t["k"] == "call" and not t["dest"]["p"]:
+                    m[t["dest"]["l"]] = None
+            cache[body["key"]] = m
+        return m.get(l)
 
     def _higher_order(self, path, r, t, bb, st, fork, emit, nexts, dl):
         f = self.f
@@ -995,6 +1039,14 @@ class Engine:
         """A generic arg counts as the combinator's callable if a value of that type is passed as an argument."""
         base = self.f.strip_refs(ty_idx)
         return any(self.f.strip_refs(a) == base for a in t.get("arg_tys", []))
+
+
+VARIANT_QUERIES = {
+    "<core::result::Result<T, E>>::is_ok": {"Ok": True, "Err": False},
+    "<core::result::Result<T, E>>::is_err": {"Ok": False, "Err": True},
+    "<core::option::Option<T>>::is_some": {"Some": True, "None": False},
+    "<core::option::Option<T>>::is_none": {"Some": False, "None": True},
+}
 
 
 def user_substitute(pr):
